@@ -8,8 +8,9 @@
    parser does.  Hypotheses used by the NEXUS theorems, always written out:
      - parse_tree only consumes a prefix of the tokens that are left;
      - upper (str.upper) is idempotent;
-     - no token of the document upper-cases to SETS / ASSUMPTIONS / CODONS (the reader leaves such
-       a block unconsumed when characters are excluded, the iterator skips it to its END).
+     - vs = true (the reader skips a SETS / ASSUMPTIONS / CODONS block like the iterator does:
+       repaired form of v_sets_consume) OR no token of the document upper-cases to one of these
+       keywords (form as found: the reader leaves such a block unconsumed, see sets_block_refuted).
    va / vk (Model/C13Model.v, Section Routes: v_attach, v_keep_label) select between two forms of
    the TreeList / Tree entry points: false = as found (namespace only handed to the reader through
    a factory; Tree.get overwrites the tree name), true = repaired (`fix:` commits 3c078def and
@@ -21,7 +22,7 @@
    `hypotheses_satisfiable` and the Examples in Proofs/C13Examples.v show they are not vacuous. *)
 From Coq Require Import ZArith List Bool.
 From Coq Require String. Import String.StringSyntax.
-From DV Require Import Model.PyPrims Model.C13Model Proofs.C13Newick Proofs.C13Examples Proofs.C13Statements Proofs.C13Repaired.
+From DV Require Import Model.PyPrims Model.C13Model Proofs.C13Newick Proofs.C13Examples Proofs.C13Statements Proofs.C13Repaired Proofs.C13Wave2 Model.C13Chars Proofs.C13CharsProofs Proofs.C13Full.
 Import ListNotations.
 Open Scope Z_scope.
 
@@ -31,10 +32,10 @@ Theorem routes_agree_newick :
   forall (T : Type) (lower upper : str -> str)
          (parse_tree : mapper -> tz -> res (option T * mapper * tz))
          (set_label : T -> option str -> T) (add_comments : T -> list str -> T)
-         (vl va vk : bool) (ns0 : list str) (d : doc),
-  let L := treelist_read T lower upper parse_tree set_label add_comments va vl Newick in
+         (vl vs va vk : bool) (ns0 : list str) (d : doc),
+  let L := treelist_read T lower upper parse_tree set_label add_comments va vl vs Newick in
   let Y := yield_from_files T lower upper parse_tree set_label add_comments vl Newick in
-  let G := tree_get T lower upper parse_tree set_label add_comments va vk vl Newick in
+  let G := tree_get T lower upper parse_tree set_label add_comments va vk vl vs Newick in
   (* the list route is a function of what the iterator does: same trees, same order, same
      namespace; it fails exactly when the iterator fails, with the same error, the iterator
      having handed out a prefix before *)
@@ -74,14 +75,14 @@ Print Assumptions newick_fuel_suffices.
 Theorem nexus_loops_agree :
   forall (T : Type) (lower upper : str -> str)
          (parse_tree : mapper -> tz -> res (option T * mapper * tz))
-         (set_label : T -> option str -> T) (add_comments : T -> list str -> T) (vl : bool),
+         (set_label : T -> option str -> T) (add_comments : T -> list str -> T) (vl vs : bool),
   (forall m z ot m' z', parse_tree m z = Ok (ot, m', z') -> exists pre, z_toks z = pre ++ z_toks z') ->
   (forall s, upper (upper s) = upper s) ->
   forall (nc : nscfg) (tlf : tl_factory) (ns0 : list str) (d : doc),
-  (forall t, In t (fst d) -> is_sets_kw (Some (upper (t_text t))) = false) ->
+  (vs = true \/ forall t, In t (fst d) -> is_sets_kw (Some (upper (t_text t))) = false) ->
   let Y := y_items_from_stream T lower upper parse_tree set_label add_comments vl nc false
                                (doc_fuel d) (core_init nc ns0 d) (regs_init nc) in
-  let R := nexus_read T lower upper parse_tree set_label add_comments vl (mkCfg nc tlf) ns0 d in
+  let R := nexus_read T lower upper parse_tree set_label add_comments vl vs (mkCfg nc tlf) ns0 d in
   match snd Y with
   | Ok (k', g') =>
     exists s, R = Ok s /\ r_k s = k' /\ r_g s = g'
@@ -103,15 +104,15 @@ Print Assumptions nexus_loops_agree.
 Theorem nexus_fuel_suffices :
   forall (T : Type) (lower upper : str -> str)
          (parse_tree : mapper -> tz -> res (option T * mapper * tz))
-         (set_label : T -> option str -> T) (add_comments : T -> list str -> T) (vl : bool),
+         (set_label : T -> option str -> T) (add_comments : T -> list str -> T) (vl vs : bool),
   (forall m z ot m' z', parse_tree m z = Ok (ot, m', z') -> exists pre, z_toks z = pre ++ z_toks z') ->
   (forall m z, parse_tree m z <> OutOfFuel) ->
   forall (nc : nscfg) (ns0 : list str) (d : doc),
   snd (y_items_from_stream T lower upper parse_tree set_label add_comments vl nc false
                            (doc_fuel d) (core_init nc ns0 d) (regs_init nc)) <> OutOfFuel
   /\ ((forall s, upper (upper s) = upper s) ->
-      (forall t, In t (fst d) -> is_sets_kw (Some (upper (t_text t))) = false) ->
-      forall tlf, nexus_read T lower upper parse_tree set_label add_comments vl (mkCfg nc tlf) ns0 d <> OutOfFuel).
+      (vs = true \/ forall t, In t (fst d) -> is_sets_kw (Some (upper (t_text t))) = false) ->
+      forall tlf, nexus_read T lower upper parse_tree set_label add_comments vl vs (mkCfg nc tlf) ns0 d <> OutOfFuel).
 Proof. exact S_nexus_fuel. Qed.
 Print Assumptions nexus_fuel_suffices.
 
@@ -123,13 +124,13 @@ Print Assumptions nexus_fuel_suffices.
 Theorem routes_agree_nexus :
   forall (T : Type) (lower upper : str -> str)
          (parse_tree : mapper -> tz -> res (option T * mapper * tz))
-         (set_label : T -> option str -> T) (add_comments : T -> list str -> T) (vl : bool),
+         (set_label : T -> option str -> T) (add_comments : T -> list str -> T) (vl vs : bool),
   (forall m z ot m' z', parse_tree m z = Ok (ot, m', z') -> exists pre, z_toks z = pre ++ z_toks z') ->
   (forall s, upper (upper s) = upper s) ->
   forall (ns0 : list str) (d : doc),
-  (forall t, In t (fst d) -> is_sets_kw (Some (upper (t_text t))) = false) ->
+  (vs = true \/ forall t, In t (fst d) -> is_sets_kw (Some (upper (t_text t))) = false) ->
   let Y := yield_from_files T lower upper parse_tree set_label add_comments vl Nexus ns0 d in
-  treelist_read T lower upper parse_tree set_label add_comments true vl Nexus ns0 d
+  treelist_read T lower upper parse_tree set_label add_comments true vl vs Nexus ns0 d
   = match snd Y with Ok ns => Ok (fst Y, ns) | Err e => Err e | OutOfFuel => OutOfFuel end.
 Proof. exact routes_agree_nexus_repaired_l. Qed.
 Print Assumptions routes_agree_nexus.
@@ -140,18 +141,18 @@ Print Assumptions routes_agree_nexus.
 Theorem dataset_blocks_concat :
   forall (T : Type) (lower upper : str -> str)
          (parse_tree : mapper -> tz -> res (option T * mapper * tz))
-         (set_label : T -> option str -> T) (add_comments : T -> list str -> T) (vl : bool),
+         (set_label : T -> option str -> T) (add_comments : T -> list str -> T) (vl vs : bool),
   (forall m z ot m' z', parse_tree m z = Ok (ot, m', z') -> exists pre, z_toks z = pre ++ z_toks z') ->
   (forall s, upper (upper s) = upper s) ->
   forall (d : doc),
-  (forall t, In t (fst d) -> is_sets_kw (Some (upper (t_text t))) = false) ->
-  match read_blocks T lower upper parse_tree set_label add_comments vl Nexus cfg_yield [] d with
-  | Ok (blocks, ns) => treelist_get T lower upper parse_tree set_label add_comments true vl Nexus d = Ok (concat blocks, ns)
-  | Err e => treelist_get T lower upper parse_tree set_label add_comments true vl Nexus d = Err e
-  | OutOfFuel => treelist_get T lower upper parse_tree set_label add_comments true vl Nexus d = OutOfFuel
+  (vs = true \/ forall t, In t (fst d) -> is_sets_kw (Some (upper (t_text t))) = false) ->
+  match read_blocks T lower upper parse_tree set_label add_comments vl vs Nexus cfg_yield [] d with
+  | Ok (blocks, ns) => treelist_get T lower upper parse_tree set_label add_comments true vl vs Nexus d = Ok (concat blocks, ns)
+  | Err e => treelist_get T lower upper parse_tree set_label add_comments true vl vs Nexus d = Err e
+  | OutOfFuel => treelist_get T lower upper parse_tree set_label add_comments true vl vs Nexus d = OutOfFuel
   end
-  /\ dataset_get T lower upper parse_tree set_label add_comments vl Nexus true d
-     = (do r <- read_blocks T lower upper parse_tree set_label add_comments vl Nexus cfg_yield [] d ;; Ok (fst r)).
+  /\ dataset_get T lower upper parse_tree set_label add_comments vl vs Nexus true d
+     = (do r <- read_blocks T lower upper parse_tree set_label add_comments vl vs Nexus cfg_yield [] d ;; Ok (fst r)).
 Proof. exact dataset_blocks_concat_repaired_l. Qed.
 Print Assumptions dataset_blocks_concat.
 
@@ -165,12 +166,12 @@ Print Assumptions dataset_blocks_concat.
 Theorem routes_agree_nexus_partial :
   forall (T : Type) (lower upper : str -> str)
          (parse_tree : mapper -> tz -> res (option T * mapper * tz))
-         (set_label : T -> option str -> T) (add_comments : T -> list str -> T) (vl va : bool),
+         (set_label : T -> option str -> T) (add_comments : T -> list str -> T) (vl vs va : bool),
   (forall m z ot m' z', parse_tree m z = Ok (ot, m', z') -> exists pre, z_toks z = pre ++ z_toks z') ->
   (forall s, upper (upper s) = upper s) ->
   forall (ns0 : list str) (d : doc) ts ns,
-  (forall t, In t (fst d) -> is_sets_kw (Some (upper (t_text t))) = false) ->
-  treelist_read T lower upper parse_tree set_label add_comments va vl Nexus ns0 d = Ok (ts, ns) ->
+  (vs = true \/ forall t, In t (fst d) -> is_sets_kw (Some (upper (t_text t))) = false) ->
+  treelist_read T lower upper parse_tree set_label add_comments va vl vs Nexus ns0 d = Ok (ts, ns) ->
   yield_from_files T lower upper parse_tree set_label add_comments vl Nexus ns0 d = (ts, Ok ns)
   /\ (forall k, treearray_read T lower upper parse_tree set_label add_comments vl Nexus k ns0 d
                 = (skipn (Z.to_nat k) ts, Ok ns)).
@@ -188,9 +189,9 @@ Theorem routes_agree_nexus_refuted :
     /\ length (fst (yield_from_files sktree (lower_with []) (upper_with []) (sk_parse_tree (lower_with []))
                                      sk_set_label sk_add_comments false Nexus [] d)) = 2%nat
     /\ treelist_get sktree (lower_with []) (upper_with []) (sk_parse_tree (lower_with []))
-                    sk_set_label sk_add_comments false false Nexus d = Err ParseErr
+                    sk_set_label sk_add_comments false false false Nexus d = Err ParseErr
     /\ is_ok (dataset_get sktree (lower_with []) (upper_with []) (sk_parse_tree (lower_with []))
-                          sk_set_label sk_add_comments false Nexus false d) = true.
+                          sk_set_label sk_add_comments false false Nexus false d) = true.
 Proof. exact attached_not_conversely_x. Qed.
 Print Assumptions routes_agree_nexus_refuted.
 
@@ -202,22 +203,22 @@ Print Assumptions routes_agree_nexus_refuted.
 Theorem dataset_blocks_concat_partial :
   forall (T : Type) (lower upper : str -> str)
          (parse_tree : mapper -> tz -> res (option T * mapper * tz))
-         (set_label : T -> option str -> T) (add_comments : T -> list str -> T) (vl va : bool),
+         (set_label : T -> option str -> T) (add_comments : T -> list str -> T) (vl vs va : bool),
   (forall m z ot m' z', parse_tree m z = Ok (ot, m', z') -> exists pre, z_toks z = pre ++ z_toks z') ->
   (forall s, upper (upper s) = upper s) ->
   forall (d : doc),
-  (forall t, In t (fst d) -> is_sets_kw (Some (upper (t_text t))) = false) ->
+  (vs = true \/ forall t, In t (fst d) -> is_sets_kw (Some (upper (t_text t))) = false) ->
   (* the per-collection lists Tree.get / TreeList.get(collection_offset=..) parse and the single
      list of TreeList.get: exact, errors included *)
-  match read_blocks T lower upper parse_tree set_label add_comments vl Nexus (cfg_blocks va) [] d with
-  | Ok (blocks, ns) => treelist_get T lower upper parse_tree set_label add_comments va vl Nexus d = Ok (concat blocks, ns)
-  | Err e => treelist_get T lower upper parse_tree set_label add_comments va vl Nexus d = Err e
-  | OutOfFuel => treelist_get T lower upper parse_tree set_label add_comments va vl Nexus d = OutOfFuel
+  match read_blocks T lower upper parse_tree set_label add_comments vl vs Nexus (cfg_blocks va) [] d with
+  | Ok (blocks, ns) => treelist_get T lower upper parse_tree set_label add_comments va vl vs Nexus d = Ok (concat blocks, ns)
+  | Err e => treelist_get T lower upper parse_tree set_label add_comments va vl vs Nexus d = Err e
+  | OutOfFuel => treelist_get T lower upper parse_tree set_label add_comments va vl vs Nexus d = OutOfFuel
   end
   /\
   (* DataSet.get(taxon_namespace=ns) delivers the same trees, grouped, whenever TreeList.get succeeds *)
-  (forall ts ns, treelist_get T lower upper parse_tree set_label add_comments va vl Nexus d = Ok (ts, ns) ->
-     exists blocks, dataset_get T lower upper parse_tree set_label add_comments vl Nexus true d = Ok blocks
+  (forall ts ns, treelist_get T lower upper parse_tree set_label add_comments va vl vs Nexus d = Ok (ts, ns) ->
+     exists blocks, dataset_get T lower upper parse_tree set_label add_comments vl vs Nexus true d = Ok blocks
                     /\ concat blocks = ts).
 Proof. exact S_dataset_blocks_concat. Qed.
 Print Assumptions dataset_blocks_concat_partial.
@@ -228,23 +229,23 @@ Print Assumptions dataset_blocks_concat_partial.
 Theorem offset_selection :
   forall (T : Type) (lower upper : str -> str)
          (parse_tree : mapper -> tz -> res (option T * mapper * tz))
-         (set_label : T -> option str -> T) (add_comments : T -> list str -> T) (vl va vk : bool),
+         (set_label : T -> option str -> T) (add_comments : T -> list str -> T) (vl vs va vk : bool),
   (forall m z ot m' z', parse_tree m z = Ok (ot, m', z') -> exists pre, z_toks z = pre ++ z_toks z') ->
   (forall s, upper (upper s) = upper s) ->
   forall (d : doc),
-  (forall t, In t (fst d) -> is_sets_kw (Some (upper (t_text t))) = false) ->
+  (vs = true \/ forall t, In t (fst d) -> is_sets_kw (Some (upper (t_text t))) = false) ->
   forall blocks ns,
-  read_blocks T lower upper parse_tree set_label add_comments vl Nexus (cfg_blocks va) [] d = Ok (blocks, ns) ->
-  treelist_get T lower upper parse_tree set_label add_comments va vl Nexus d = Ok (concat blocks, ns)
-  /\ (forall c k, tree_get T lower upper parse_tree set_label add_comments va vk vl Nexus c k d
+  read_blocks T lower upper parse_tree set_label add_comments vl vs Nexus (cfg_blocks va) [] d = Ok (blocks, ns) ->
+  treelist_get T lower upper parse_tree set_label add_comments va vl vs Nexus d = Ok (concat blocks, ns)
+  /\ (forall c k, tree_get T lower upper parse_tree set_label add_comments va vk vl vs Nexus c k d
                   = select_tree T set_label vk blocks (match c with Some c => c | None => 0 end)
                                 (match k with Some k => k | None => 0 end))
   /\ (forall (c k : nat) b t, nth_error blocks c = Some b -> nth_error b k = Some t ->
-        tree_get T lower upper parse_tree set_label add_comments va vk vl Nexus (Some (Z.of_nat c)) (Some (Z.of_nat k)) d
+        tree_get T lower upper parse_tree set_label add_comments va vk vl vs Nexus (Some (Z.of_nat c)) (Some (Z.of_nat k)) d
         = Ok (got_label T set_label vk t)
         /\ nth_error (concat blocks) (length (concat (firstn c blocks)) + k) = Some t)
   /\ (forall c k, (c <> None \/ k <> None) ->
-        treelist_get_off T lower upper parse_tree set_label add_comments va vl Nexus c k d
+        treelist_get_off T lower upper parse_tree set_label add_comments va vl vs Nexus c k d
         = select_offsets T blocks (match c with Some c => c | None => 0 end) k).
 Proof. exact S_offset_selection. Qed.
 Print Assumptions offset_selection.
@@ -273,9 +274,9 @@ Print Assumptions offset_selection_cases.
 Theorem tree_get_label_refuted :
   exists (d : doc) t t',
     (exists ns, treelist_get sktree (lower_with []) (upper_with []) (sk_parse_tree (lower_with []))
-                             sk_set_label sk_add_comments false false Nexus d = Ok ([t; t'], ns))
+                             sk_set_label sk_add_comments false false false Nexus d = Ok ([t; t'], ns))
     /\ (exists u, tree_get sktree (lower_with []) (upper_with []) (sk_parse_tree (lower_with []))
-                           sk_set_label sk_add_comments false false false Nexus None None d = Ok u
+                           sk_set_label sk_add_comments false false false false Nexus None None d = Ok u
                   /\ sk_label t = Some (Some (q "foo")) /\ sk_label u = Some None
                   /\ sk_items u = sk_items t).
 Proof. exact tree_get_label_refuted_l. Qed.
@@ -308,22 +309,22 @@ Print Assumptions shared_namespace_same_taxa.
 Theorem shared_namespace_threading :
   forall (T : Type) (lower upper : str -> str)
          (parse_tree : mapper -> tz -> res (option T * mapper * tz))
-         (set_label : T -> option str -> T) (add_comments : T -> list str -> T) (va vl : bool),
+         (set_label : T -> option str -> T) (add_comments : T -> list str -> T) (va vl vs : bool),
   (forall sch ns0 d,
-     treelist_read_twice T lower upper parse_tree set_label add_comments va vl sch ns0 d =
-     match treelist_read T lower upper parse_tree set_label add_comments va vl sch ns0 d with
-     | Ok (_, ns1) => treelist_read T lower upper parse_tree set_label add_comments va vl sch ns1 d
+     treelist_read_twice T lower upper parse_tree set_label add_comments va vl vs sch ns0 d =
+     match treelist_read T lower upper parse_tree set_label add_comments va vl vs sch ns0 d with
+     | Ok (_, ns1) => treelist_read T lower upper parse_tree set_label add_comments va vl vs sch ns1 d
      | Err e => Err e
      | OutOfFuel => OutOfFuel
      end)
   /\ ((forall m z ot m' z', parse_tree m z = Ok (ot, m', z') -> exists r, m_ns m' = m_ns m ++ r) ->
       forall ns0 d ts ns1,
-      treelist_read T lower upper parse_tree set_label add_comments va vl Newick ns0 d = Ok (ts, ns1) ->
+      treelist_read T lower upper parse_tree set_label add_comments va vl vs Newick ns0 d = Ok (ts, ns1) ->
       exists r, ns1 = ns0 ++ r).
 Proof.
-  exact (fun T lower upper parse_tree set_label add_comments va vl =>
-           conj (S_read_twice T lower upper parse_tree set_label add_comments va vl)
-                (S_newick_grows T lower upper parse_tree set_label add_comments va vl)).
+  exact (fun T lower upper parse_tree set_label add_comments va vl vs =>
+           conj (S_read_twice T lower upper parse_tree set_label add_comments va vl vs)
+                (S_newick_grows T lower upper parse_tree set_label add_comments va vl vs)).
 Qed.
 Print Assumptions shared_namespace_threading.
 
@@ -336,3 +337,183 @@ Theorem hypotheses_satisfiable :
   /\ (forall s, upper_with [] (upper_with [] s) = upper_with [] s).
 Proof. exact S_hypotheses_satisfiable. Qed.
 Print Assumptions hypotheses_satisfiable.
+
+(* ============ 6. second wave ============ *)
+
+(* a NEXUS read - whichever route, whichever configuration - only APPENDS to the namespaces:
+   TAXLABELS, TRANSLATE and tree statements never remove or reorder existing members (a taxon
+   keeps its position = identity) and no namespace object disappears; the only assumption is that
+   the statement parser itself only appends.  (Newick: shared_namespace_threading.) *)
+Theorem nexus_reads_only_append :
+  forall (T : Type) (lower upper : str -> str)
+         (parse_tree : mapper -> tz -> res (option T * mapper * tz))
+         (set_label : T -> option str -> T) (add_comments : T -> list str -> T) (vl vs : bool),
+  (forall m z ot m' z', parse_tree m z = Ok (ot, m', z') -> exists r, m_ns m' = m_ns m ++ r) ->
+  (forall (c : cfg) (ns0 : list str) (d : doc) s,
+     nexus_read T lower upper parse_tree set_label add_comments vl vs c ns0 d = Ok s ->
+     (length (k_nss (r_k (nexus_init T c ns0 d))) <= length (k_nss (r_k s)))%nat
+     /\ forall i, exists r, nth i (k_nss (r_k s)) [] = nth i (k_nss (r_k (nexus_init T c ns0 d))) [] ++ r)
+  /\ (forall va ns0 d ts ns1,
+       treelist_read T lower upper parse_tree set_label add_comments va vl vs Nexus ns0 d = Ok (ts, ns1) ->
+       exists r, ns1 = ns0 ++ r)
+  /\ (forall ns0 d out ns1,
+       yield_from_files T lower upper parse_tree set_label add_comments vl Nexus ns0 d = (out, Ok ns1) ->
+       exists r, ns1 = ns0 ++ r).
+Proof.
+  exact (fun T lower upper parse_tree set_label add_comments vl vs H =>
+           conj (W_nexus_reads_only_append T lower upper parse_tree set_label add_comments vl vs H)
+                (conj (W_treelist_read_appends T lower upper parse_tree set_label add_comments vl vs H)
+                      (W_yield_appends T lower upper parse_tree set_label add_comments vl H))).
+Qed.
+Print Assumptions nexus_reads_only_append.
+
+(* DataSet.get WITHOUT a namespace argument creates a new TaxonNamespace per TAXA block.  Whenever
+   its run ends with at most one namespace object (no or one TAXA block, or TREES blocks only), the
+   run of DataSet.get(taxon_namespace=fresh) is identical: the same tree lists (the very same trees,
+   block by block) and the same namespace content; hence (dataset_blocks_concat, routes_agree_nexus)
+   also TreeList.get, Tree.get, the iterator and TreeArray.read deliver these trees.
+   FULL STATEMENT for documents with several TAXA blocks ("the per-block namespaces are the
+   restrictions of the merged namespace and the trees correspond under the label-preserving map")
+   is FALSE on the faithful model and on the implementation: dataset_multi_namespace_refuted. *)
+Theorem dataset_single_namespace :
+  forall (T : Type) (lower upper : str -> str)
+         (parse_tree : mapper -> tz -> res (option T * mapper * tz))
+         (set_label : T -> option str -> T) (add_comments : T -> list str -> T) (vl vs : bool),
+  (forall m z ot m' z', parse_tree m z = Ok (ot, m', z') -> exists r, m_ns m' = m_ns m ++ r) ->
+  forall (d : doc) s,
+  nexus_read T lower upper parse_tree set_label add_comments vl vs cfg_dataset [] d = Ok s ->
+  (length (k_nss (r_k s)) <= 1)%nat ->
+  exists s', nexus_read T lower upper parse_tree set_label add_comments vl vs cfg_yield [] d = Ok s'
+             /\ rs_blocks T s' = rs_blocks T s
+             /\ rs_ns0 T s' = nth O (k_nss (r_k s)) []
+             /\ dataset_get T lower upper parse_tree set_label add_comments vl vs Nexus false d = Ok (rs_blocks T s)
+             /\ dataset_get T lower upper parse_tree set_label add_comments vl vs Nexus true d = Ok (rs_blocks T s).
+Proof. exact W_dataset_single_namespace. Qed.
+Print Assumptions dataset_single_namespace.
+
+(* two TAXA blocks T1 = {a, b}, T2 = {c, d}, a TREES block LINKed to T2 whose tree names its taxa
+   by NUMBER (legal NEXUS): DataSet.get resolves (1,2) in T2's namespace (c, d); every route reading
+   into one namespace resolves it in the merged namespace (a, b).  Finding taxon-number-resolution. *)
+Theorem dataset_multi_namespace_refuted :
+  exists (d : doc) sA sB tA tB,
+    nexus_read sktree (lower_with []) (upper_with []) (sk_parse_tree (lower_with [])) sk_set_label sk_add_comments
+               false false cfg_dataset [] d = Ok sA
+    /\ nexus_read sktree (lower_with []) (upper_with []) (sk_parse_tree (lower_with [])) sk_set_label sk_add_comments
+                  false false cfg_yield [] d = Ok sB
+    /\ rs_blocks sktree sA = [[tA]] /\ rs_blocks sktree sB = [[tB]]
+    /\ sk_items tA = sk_items tB
+    /\ first_taxon tA = Some O
+    /\ k_nss (r_k sA) = [[q "a"; q "b"]; [q "c"; q "d"]]
+    /\ k_nss (r_k sB) = [[q "a"; q "b"; q "c"; q "d"]]
+    /\ treelist_get sktree (lower_with []) (upper_with []) (sk_parse_tree (lower_with [])) sk_set_label sk_add_comments
+                    true false false Nexus d = Ok ([tB], [q "a"; q "b"; q "c"; q "d"]).
+Proof. exact dataset_multi_namespace_refuted_l. Qed.
+Print Assumptions dataset_multi_namespace_refuted.
+
+(* the no-SETS hypothesis cannot simply be dropped for the reader as found: a SETS block whose set
+   names are the words begin / trees / tree makes TreeList.get fail where the iterator reads the
+   tree; with the repaired reader (vs = true) both read it.  Finding sets-block-unconsumed. *)
+Theorem sets_block_refuted :
+  exists d : doc,
+    (exists ns, snd (yield_from_files sktree (lower_with []) (upper_with []) (sk_parse_tree (lower_with []))
+                                      sk_set_label sk_add_comments false Nexus [] d) = Ok ns)
+    /\ length (fst (yield_from_files sktree (lower_with []) (upper_with []) (sk_parse_tree (lower_with []))
+                                     sk_set_label sk_add_comments false Nexus [] d)) = 1%nat
+    /\ treelist_get sktree (lower_with []) (upper_with []) (sk_parse_tree (lower_with []))
+                    sk_set_label sk_add_comments true false false Nexus d = Err ParseErr
+    /\ (exists t ns, treelist_get sktree (lower_with []) (upper_with []) (sk_parse_tree (lower_with []))
+                                  sk_set_label sk_add_comments true false true Nexus d = Ok ([t], ns)).
+Proof. exact sets_block_refuted_l. Qed.
+Print Assumptions sets_block_refuted.
+
+(* the matrix clause at block-dispatch level (Model/C13Chars.v: the reader's block loop with
+   characters READ; the bodies of the CHARACTERS/DATA and SETS blocks are arbitrary functions that
+   only move forward in the token sequence).  CharacterMatrix.get (exclude_trees = true) and
+   DataSet.get (trees read) under the same namespace configuration:
+     - on a document without TREES keyword they are the same computation;
+     - on a document in the standard layout (every CHARACTERS / DATA / SETS / ASSUMPTIONS / CODONS
+       keyword token before every TREES keyword token) they deliver the same matrices whenever
+       both succeed.
+   FULL STATEMENT ("the matrix read on its own EQUALS the one in the data set", any layout, errors
+   included, CharacterMatrix.get's own namespace configuration) is not proved: a TREES block that is
+   parsed may add taxa that a later CHARACTERS block sees and may fail where skipping it does not;
+   and CharacterMatrix.get as found is not attached to its namespace (finding
+   matrix-reader-not-attached).  The payload of the blocks is covered by the oracle only. *)
+Theorem matrix_alone_eq_in_dataset_partial :
+  forall (T M : Type) (lower upper : str -> str)
+         (parse_tree : mapper -> tz -> res (option T * mapper * tz))
+         (set_label : T -> option str -> T) (add_comments : T -> list str -> T)
+         (vl : bool) (c : nscfg) (tlf : tl_factory)
+         (parse_chars parse_sets : core -> regs -> list M -> res (core * regs * list M)),
+  (forall m z ot m' z', parse_tree m z = Ok (ot, m', z') -> exists pre, z_toks z = pre ++ z_toks z') ->
+  (forall k g ms k' g' ms', parse_chars k g ms = Ok (k', g', ms') -> exists pre, z_toks (k_z k) = pre ++ z_toks (k_z k')) ->
+  (forall k g ms k' g' ms', parse_sets k g ms = Ok (k', g', ms') -> exists pre, z_toks (k_z k) = pre ++ z_toks (k_z k')) ->
+  forall (fuel : nat) (s : rs T) (mats : list M),
+  let run := c_blocks_loop T M lower upper parse_tree set_label add_comments vl c tlf parse_chars parse_sets in
+  ((forall t, In t (z_toks (k_z (r_k s))) -> otok_is (Some (upper (t_text t))) K_TREES = false) ->
+     run true fuel s mats = run false fuel s mats)
+  /\ (forall pre post s1 m1 s2 m2,
+        z_toks (k_z (r_k s)) = pre ++ post ->
+        (forall t, In t pre -> otok_is (Some (upper (t_text t))) K_TREES = false) ->
+        (forall t, In t post ->
+           otok_is (Some (upper (t_text t))) K_CHARACTERS || otok_is (Some (upper (t_text t))) K_DATA
+           || is_sets_kw (Some (upper (t_text t))) = false) ->
+        run true fuel s mats = Ok (s1, m1) -> run false fuel s mats = Ok (s2, m2) -> m1 = m2).
+Proof. exact S_matrix_routes. Qed.
+Print Assumptions matrix_alone_eq_in_dataset_partial.
+
+(* ============ 7. the working tree's form (all repairs in): no hypothesis on the document ============ *)
+
+(* vs = true (fix commit 6520c171: the reader skips SETS / ASSUMPTIONS / CODONS blocks like the
+   iterator) and va = true (3c078def): the NEXUS reader and the NEXUS iterator agree on EVERY token
+   stream, and TreeList.get / .read is a function of what the iterator does, errors included. *)
+Theorem nexus_loops_agree_full :
+  forall (T : Type) (lower upper : str -> str)
+         (parse_tree : mapper -> tz -> res (option T * mapper * tz))
+         (set_label : T -> option str -> T) (add_comments : T -> list str -> T) (vl : bool),
+  (forall m z ot m' z', parse_tree m z = Ok (ot, m', z') -> exists pre, z_toks z = pre ++ z_toks z') ->
+  (forall s, upper (upper s) = upper s) ->
+  forall (nc : nscfg) (tlf : tl_factory) (ns0 : list str) (d : doc),
+  let Y := y_items_from_stream T lower upper parse_tree set_label add_comments vl nc false
+                               (doc_fuel d) (core_init nc ns0 d) (regs_init nc) in
+  let R := nexus_read T lower upper parse_tree set_label add_comments vl true (mkCfg nc tlf) ns0 d in
+  match snd Y with
+  | Ok (k', g') =>
+    exists s, R = Ok s /\ r_k s = k' /\ r_g s = g'
+              /\ match tlf with
+                 | TLFixed => rs_list0 T s = fst Y
+                 | TLNew => concat (rs_blocks T s) = fst Y
+                 end
+  | Err e => R = Err e
+  | OutOfFuel => R = OutOfFuel
+  end.
+Proof. exact F_nexus_loops_agree. Qed.
+Print Assumptions nexus_loops_agree_full.
+
+Theorem routes_agree_nexus_full :
+  forall (T : Type) (lower upper : str -> str)
+         (parse_tree : mapper -> tz -> res (option T * mapper * tz))
+         (set_label : T -> option str -> T) (add_comments : T -> list str -> T) (vl : bool),
+  (forall m z ot m' z', parse_tree m z = Ok (ot, m', z') -> exists pre, z_toks z = pre ++ z_toks z') ->
+  (forall s, upper (upper s) = upper s) ->
+  forall (ns0 : list str) (d : doc),
+  let Y := yield_from_files T lower upper parse_tree set_label add_comments vl Nexus ns0 d in
+  treelist_read T lower upper parse_tree set_label add_comments true vl true Nexus ns0 d
+  = match snd Y with Ok ns => Ok (fst Y, ns) | Err e => Err e | OutOfFuel => OutOfFuel end.
+Proof. exact F_routes_agree_nexus. Qed.
+Print Assumptions routes_agree_nexus_full.
+
+Theorem dataset_blocks_concat_full :
+  forall (T : Type) (lower upper : str -> str)
+         (parse_tree : mapper -> tz -> res (option T * mapper * tz))
+         (set_label : T -> option str -> T) (add_comments : T -> list str -> T) (vl : bool),
+  (forall m z ot m' z', parse_tree m z = Ok (ot, m', z') -> exists pre, z_toks z = pre ++ z_toks z') ->
+  (forall s, upper (upper s) = upper s) ->
+  forall (d : doc),
+  match read_blocks T lower upper parse_tree set_label add_comments vl true Nexus cfg_yield [] d with
+  | Ok (blocks, ns) => treelist_get T lower upper parse_tree set_label add_comments true vl true Nexus d = Ok (concat blocks, ns)
+  | Err e => treelist_get T lower upper parse_tree set_label add_comments true vl true Nexus d = Err e
+  | OutOfFuel => treelist_get T lower upper parse_tree set_label add_comments true vl true Nexus d = OutOfFuel
+  end.
+Proof. exact F_dataset_blocks_concat. Qed.
+Print Assumptions dataset_blocks_concat_full.
